@@ -152,7 +152,12 @@ fn run_scenario(out: &mut Out, st: &mut Stats, world: &World, tx: &TxSpec, repla
         let cls = wclass(&t.step.mnemonic);
         if !t.changed.is_empty() {
             match cls { WClass::Store(_) | WClass::Clear | WClass::Copy | WClass::User | WClass::UserMulti => { st.user_writes += 1; uw += 1; } _ => st.vm_writes += 1 }
-            if t.step.outcome.panic_reason().is_some() { st.panic_with_change += 1; }
+            if let Some(r) = t.step.outcome.panic_reason() {
+                // the last step's diff includes the post-execution update of the transaction outputs: not counted
+                if t.changed.iter().any(|(a, n)| (*a..a + n).any(|x| !layout.in_any_output(x))) {
+                    st.panic_with_change += 1; *st.mem_panics.entry(format!("changed-memory-then-{r:?}@{}", t.step.mnemonic)).or_insert(0) += 1;
+                }
+            }
         }
         if let Some(r) = t.step.outcome.panic_reason() {
             if matches!(r, PanicReason::MemoryOverflow | PanicReason::MemoryOwnership | PanicReason::UninitalizedMemoryAccess | PanicReason::MemoryWriteOverlap | PanicReason::MemoryGrowthOverlap | PanicReason::ExpectedUnallocatedStack) {
@@ -269,7 +274,7 @@ fn main() {
         }
     }
     rng.shuffle(&mut out.cases);   // balance the shards
-    out.notes.push(format!("steps {} (quiet {}), steps with user writes {}, with VM-own writes {}, panicking steps that changed memory {}, max call depth {}, scenarios not buildable {}",
+    out.notes.push(format!("steps {} (quiet {}), steps with user writes {}, with VM-own writes {}, panicking steps that changed memory outside the transaction outputs {}, max call depth {}, scenarios not buildable {}",
         st.steps, st.quiet, st.user_writes, st.vm_writes, st.panic_with_change, st.max_depth, st.build_errors));
     out.notes.push(format!("memory-fault panics: {:?}", st.mem_panics));
     out.notes.push(format!("hostile accesses (target:opcode -> outcome of the last instruction): {:?}", st.hostile_outcomes));
